@@ -121,6 +121,39 @@ def run_model(specdir, module, cfg, workers, timeout, heap="6g"):
                 wall_s=round(time.time() - t0, 1), tail=out[-2500:] if not done else "")
 
 
+def run_calc(specdir, drv, tdir, seed, num, workers=4, timeout=900):
+    """Run kind (C): TLC simulates the full-size Calc machine; its behaviours are replayed into the real library.
+    Returns (trace path, number of distinct behaviours)."""
+    md = tempfile.mkdtemp(prefix="tlcmeta.", dir=specdir)
+    cmd = ["java", "-Xmx4g", "-Xss256m", "-XX:+UseParallelGC", "-XX:ParallelGCThreads=2", "-cp", JAVA_CP, "tlc2.TLC",
+           "-workers", str(workers), "-metadir", md, "-config", "Calc.cfg", "-simulate", "num=%d" % num, "-depth", "40",
+           "-seed", str(seed), "Calc.tla"]
+    try:
+        p = subprocess.run(cmd, cwd=specdir, capture_output=True, text=True, timeout=timeout)
+    except subprocess.TimeoutExpired:
+        raise Infra("TLC simulation of Calc timed out")
+    finally:
+        shutil.rmtree(md, ignore_errors=True)
+    out = p.stdout
+    if "Error" in out and "BEHAVIOUR" not in out:
+        raise Infra("TLC simulation of Calc failed:\n" + out[-2000:])
+    if re.search(r"Error: (Invariant|Action property|Temporal)", out):
+        raise Infra("the Calc machine violates one of its own properties (a fault of the specification):\n" + out[-2000:])
+    behs = sorted(set(m.group(1) for m in re.finditer(r'<<"BEHAVIOUR", "(\[.*?\])">>', out)))
+    if not behs:
+        raise Infra("TLC simulation produced no behaviour:\n" + out[-1500:])
+    bpath = os.path.join(tdir, "behaviours.jsonl")
+    with open(bpath, "w") as f:
+        for b in behs:
+            f.write(b.replace('\\"', '"') + "\n")
+    tpath = os.path.join(tdir, "shard_calc.ndjson")
+    p = subprocess.run([drv, "replaybeh", bpath, tpath], capture_output=True, text=True, env=GOENV, timeout=600)
+    if p.returncode != 0:
+        raise Infra("driver replaybeh failed:\n" + p.stdout[-2000:] + p.stderr[-2000:])
+    os.remove(bpath)
+    return tpath, len(behs)
+
+
 def load_kf():
     if not os.path.exists(KF_FILE):
         return {"known": [], "fixed": []}
@@ -188,6 +221,9 @@ def check_property(pid, tier, seed):
             race_report = p.stderr[-6000:]
         elif p.returncode != 0:
             raise Infra("driver gen failed:\n" + p.stdout[-3000:] + p.stderr[-3000:])
+        nbeh = 0
+        if tcfg.get("calc"):
+            _, nbeh = run_calc(specdir, drv, tdir, seed, tcfg["calc"])
         shard_files = sorted(os.path.join(tdir, f) for f in os.listdir(tdir) if f.endswith(".ndjson"))
 
         models = tcfg.get("models", [])
@@ -299,7 +335,8 @@ def check_property(pid, tier, seed):
             "property_id": pid, "tier": tier, "seed": seed, "level": prop["level"],
             "coverage": {
                 "states": m_states + t_states, "transitions": m_trans + t_trans,
-                "traces_validated_against_impl": len(results),
+                "traces_validated_against_impl": len(results) + nbeh,
+                "tlc_generated_behaviours_replayed": nbeh,
                 "evaluations": steps,
                 "distinct_nontrivial": len(nontrivial_keys),
                 "distinct_inputs": len(all_keys),
